@@ -7,7 +7,7 @@ Open Scope Z_scope.
 
 Lemma expected_rooting_consistent o r : rooting_consistent o r = true -> expected_rooting o r = r.
 Proof.
-  destruct o as [uu ps pu it sr dir]. unfold rooting_consistent, expected_rooting. cbn [rt_sr rt_dir].
+  destruct o as [uu ps pu it sr dir bc]. unfold rooting_consistent, expected_rooting. cbn [rt_sr rt_dir].
   destruct sr, r as [[|]|], dir; intro H; try discriminate; reflexivity.
 Qed.
 
@@ -44,7 +44,7 @@ Definition parse_num (s : str) : option str :=
   if negb (is_nil s) && forallb numeral_char s then Some s else None.
 
 (* ---------- non-vacuity ---------- *)
-Definition rt_default : rt_opts := mkRtOpts false false false false false NoDirective.
+Definition rt_default : rt_opts := mkRtOpts false false false false false NoDirective false.
 
 (* a tree with unifurcation, polytomy, quoted and underscore-converted labels, an internal label *)
 Definition ex_tree : ntree str :=
@@ -139,3 +139,10 @@ Lemma trailing_blank_leaf_refuted_l :
                 (write_tree_list str (fun x => x) (rt_wopts rt_default) [(None, t)])
     = Ok ([mkPR None [] (PN None None None [] [PN (Some 0%nat) None None [] []])], [[97]]).
 Proof. exists blank_tree. exact trailing_blank. Qed.
+
+(* with the repaired form of the reader's `,)` handling the same tree round-trips *)
+Example trailing_blank_repaired :
+  read_newick str parse_num (fun s => s) (rt_ropts (mkRtOpts false false false false false NoDirective true)) []
+              (write_tree_list str (fun x => x) (rt_wopts rt_default) [(None, blank_tree)])
+  = Ok ([mkPR None [] (PN None None None [] [PN (Some 0%nat) None None [] []; PN None None None [] []])], [[97]]).
+Proof. vm_compute. reflexivity. Qed.
